@@ -8,7 +8,9 @@ import (
 	"time"
 
 	"github.com/awslabs/operatorpkg/status"
+	corev1 "k8s.io/api/core/v1"
 	metav1 "k8s.io/apimachinery/pkg/apis/meta/v1"
+	"k8s.io/apimachinery/pkg/types"
 	clocktesting "k8s.io/utils/clock/testing"
 	"sigs.k8s.io/controller-runtime/pkg/client"
 	"sigs.k8s.io/controller-runtime/pkg/client/interceptor"
@@ -19,7 +21,10 @@ import (
 	"verifharness/internal/core"
 )
 
-// ExpIn: one NodeClaim, one clock position, one outcome for the Delete call.
+// ExpIn: one NodeClaim, one clock position, one outcome for the Delete call - and the FRAME of the decision:
+// everything else a real NodeClaim and its surroundings carry (durations, instants, flags) that is not part of the
+// documented trigger. All frame fields are optional; the zero value is the bare NodeClaim of the first version of
+// this op (three lifecycle conditions, no terminationGracePeriod, no NodePool / Node / pods).
 type ExpIn struct {
 	Managed     bool   `json:"managed"`
 	Deleting    bool   `json:"deleting"`
@@ -27,6 +32,27 @@ type ExpIn struct {
 	Created     int64  `json:"created"`     // ns since t0, whole seconds
 	Now         int64  `json:"now"`         // ns since t0
 	DeleteFault string `json:"deleteFault"` // "" | "notfound" | "err"
+
+	// --- frame ---
+	TGP   *int64    `json:"tgp,omitempty"` // spec.terminationGracePeriod, ns; null = unset
+	Conds []ExpCond `json:"conds"`         // status conditions of the NodeClaim; null = Launched/Registered/Initialized True
+	// owning NodePool: "" = nodepool label, no NodePool object | "present" = label + NodePool object whose template
+	// carries poolExpireAfter (null = Never) and poolTgp (null = unset) | "nolabel" = standalone NodeClaim
+	Pool            string `json:"pool,omitempty"`
+	PoolExpireAfter *int64 `json:"poolExpireAfter,omitempty"`
+	PoolTGP         *int64 `json:"poolTgp,omitempty"`
+	TermAnnotSec    *int64 `json:"termAnnotSec,omitempty"` // karpenter.sh/nodeclaim-termination-timestamp, whole seconds since t0
+	DoNotDisrupt    bool   `json:"doNotDisrupt,omitempty"` // karpenter.sh/do-not-disrupt on the NodeClaim
+	LastPodEvent    *int64 `json:"lastPodEvent,omitempty"` // status.lastPodEventTime, ns since t0 (whole seconds)
+	Node            string `json:"node,omitempty"`         // the NodeClaim's Node: "" none | "present" | "terminating"
+	NodeCreated     *int64 `json:"nodeCreated,omitempty"`  // its creation time, ns since t0 (whole seconds)
+	Pods            int    `json:"pods,omitempty"`         // pods bound to the Node (the first one carries do-not-disrupt)
+}
+
+type ExpCond struct {
+	Type   string `json:"type"`
+	Status string `json:"status"`
+	At     int64  `json:"at"` // last transition, ns since t0 (whole seconds)
 }
 
 // ReapOut is the canonical observation for the single-object reapers.
@@ -52,6 +78,86 @@ func genDelta(r *rand.Rand) int64 {
 	}
 }
 
+var tgpDurations = []int64{0, 1, sec(1), sec(30), sec(600), sec(3600), sec(7200), sec(48 * 3600)}
+var expCondTypes = []string{v1.ConditionTypeLaunched, v1.ConditionTypeRegistered, v1.ConditionTypeInitialized, v1.ConditionTypeDrifted,
+	v1.ConditionTypeConsolidatable, v1.ConditionTypeConsistentStateFound, v1.ConditionTypeDrained, v1.ConditionTypeDisruptionReason}
+
+// a duration related to the NodeClaim's own expireAfter d (equal, just below / above, half, double) or from the table
+func genRelatedDuration(r *rand.Rand, d int64, table []int64) int64 {
+	if d > 0 && r.Float64() < 0.3 {
+		return max(0, pick(r, []int64{d, d - sec(1), d + sec(1), d / 2, 2 * d, d - 1, d + 1}))
+	}
+	return pick(r, table)
+}
+
+// genExpFrame: 35% bare NodeClaims (as before); otherwise each frame item independently:
+// terminationGracePeriod 70% (table 0..48h or related to expireAfter), custom conditions 50% (each of 8 types
+// 45%, random status, transition 0..2h after creation), NodePool present 45% (template expireAfter Never 20% /
+// related or table; template terminationGracePeriod 50%) or standalone 10%, termination-timestamp annotation 15%,
+// do-not-disrupt 15%, lastPodEventTime 30%, Node present 50% (terminating 20% of those; created 0..10min after
+// the NodeClaim) with 0..2 pods.
+func genExpFrame(r *rand.Rand, in *ExpIn) {
+	if r.Float64() < 0.35 {
+		return
+	}
+	d := int64(0)
+	if in.ExpireAfter != nil {
+		d = *in.ExpireAfter
+	}
+	if r.Float64() < 0.7 {
+		g := genRelatedDuration(r, d, tgpDurations)
+		in.TGP = &g
+	}
+	if r.Float64() < 0.5 {
+		in.Conds = []ExpCond{}
+		for _, t := range expCondTypes {
+			if r.Float64() < 0.45 {
+				in.Conds = append(in.Conds, ExpCond{Type: t, Status: pick(r, condStatuses), At: in.Created + sec(r.Int64N(7200))})
+			}
+		}
+	}
+	switch x := r.Float64(); {
+	case x < 0.45:
+		in.Pool = "present"
+		if r.Float64() >= 0.2 {
+			e := genRelatedDuration(r, d, expDurations)
+			in.PoolExpireAfter = &e
+		}
+		if r.Float64() < 0.5 {
+			g := genRelatedDuration(r, d, tgpDurations)
+			in.PoolTGP = &g
+		}
+	case x < 0.55:
+		in.Pool = "nolabel"
+	}
+	if r.Float64() < 0.15 {
+		a := (in.Created+d)/int64(time.Second) + pick(r, []int64{-3600, -600, -1, 0, 1, 600})
+		in.TermAnnotSec = &a
+	}
+	in.DoNotDisrupt = r.Float64() < 0.15
+	if r.Float64() < 0.3 {
+		t := in.Created + sec(r.Int64N(7200))
+		in.LastPodEvent = &t
+	}
+	if r.Float64() < 0.5 {
+		in.Node = "present"
+		if r.Float64() < 0.2 {
+			in.Node = "terminating"
+		}
+		t := in.Created + sec(r.Int64N(600))
+		in.NodeCreated = &t
+		in.Pods = r.IntN(3)
+	}
+}
+
+// Clock: with expiry enabled 55% around creation + expireAfter (60% of those at the edge -1s/-1ns/0/+1ns/+1s,
+// 20% +-1h, 20% +-1ms); if the frame is not empty 45% of the clocks are placed around (same edge distribution) an
+// "alternative deadline" a mistaken controller could use instead: for a frame duration x (terminationGracePeriod,
+// the NodePool's expireAfter / terminationGracePeriod) creation + expireAfter - x (where a deadline "pulled
+// forward by x" would start), a uniform point of [creation + expireAfter - x, creation + expireAfter), creation + x;
+// for a frame instant t (condition transitions, lastPodEventTime, Node creation, termination-timestamp
+// annotation) t itself; creation + expireAfter/2 and a uniform point of the NodeClaim's life. Those are clamped to
+// be after the creation time.
 func genExp(r *rand.Rand, _ core.Tier) any {
 	in := ExpIn{Managed: r.Float64() < 0.9, Deleting: r.Float64() < 0.1, Created: sec(r.Int64N(100000))}
 	switch x := r.Float64(); {
@@ -70,9 +176,39 @@ func genExp(r *rand.Rand, _ core.Tier) any {
 	if in.ExpireAfter != nil {
 		d = *in.ExpireAfter
 	}
+	genExpFrame(r, &in)
 	in.Now = in.Created + d + genDelta(r)
 	if in.ExpireAfter == nil {
 		in.Now = in.Created + r.Int64N(sec(1000000)) // arbitrarily old
+	} else if r.Float64() < 0.45 {
+		// alternative deadlines a mistaken controller could use instead of creation + expireAfter
+		var alts []int64
+		for _, p := range []*int64{in.TGP, in.TGP, in.PoolExpireAfter, in.PoolTGP} {
+			if p != nil && *p > 0 {
+				x := *p
+				alts = append(alts, in.Created+d-x, in.Created+d-x, in.Created+d-x+r.Int64N(x), in.Created+d-x+r.Int64N(x), in.Created+x)
+			}
+		}
+		for _, c := range in.Conds {
+			alts = append(alts, c.At)
+		}
+		for _, p := range []*int64{in.LastPodEvent, in.NodeCreated} {
+			if p != nil {
+				alts = append(alts, *p)
+			}
+		}
+		if in.TermAnnotSec != nil {
+			alts = append(alts, sec(*in.TermAnnotSec))
+		}
+		if d > 1 && (in.TGP != nil || in.Conds != nil || in.Pool != "" || in.Node != "") {
+			alts = append(alts, in.Created+d/2, in.Created+r.Int64N(d))
+		}
+		if len(alts) > 0 {
+			in.Now = pick(r, alts) + genDelta(r)
+			if in.Now < in.Created { // e.g. terminationGracePeriod >= expireAfter: the window starts before the NodeClaim exists
+				in.Now = in.Created + pick(r, []int64{0, 1, sec(1), sec(60), r.Int64N(sec(600) + 1)})
+			}
+		}
 	}
 	if x := r.Float64(); x < 0.1 {
 		in.DeleteFault = "notfound"
@@ -82,7 +218,10 @@ func genExp(r *rand.Rand, _ core.Tier) any {
 	return in
 }
 
-// every flag combination x {disabled, 0, 1h} x clock at the edge -1s,-1ns,0,+1ns,+1s x delete outcome
+// every flag combination x {disabled, 0, 1h} x clock at the edge -1s,-1ns,0,+1ns,+1s x delete outcome (bare NodeClaim);
+// then, for the managed, not deleting NodeClaim: terminationGracePeriod {0, 1ns, 10m, 1h = expireAfter, 2h} x
+// {NodeClaim only, NodePool with the same / a shorter expireAfter + terminationGracePeriod} x clock at
+// {creation + expireAfter, creation + expireAfter - terminationGracePeriod, creation + 1min} + edge x delete outcome
 func enumExp(_ core.Tier) []any {
 	var out []any
 	h := sec(3600)
@@ -102,6 +241,39 @@ func enumExp(_ core.Tier) []any {
 			}
 		}
 	}
+	half := sec(1800)
+	for _, ea := range []*int64{nil, &h} {
+		for _, g := range []int64{0, 1, sec(600), sec(3600), sec(7200)} {
+			for _, pool := range []string{"", "same", "shorter"} {
+				d := int64(0)
+				if ea != nil {
+					d = *ea
+				}
+				anchors := []int64{sec(1000) + d, sec(1000) + d - g, sec(1000) + sec(60)}
+				for ai, a := range anchors {
+					if (ai == 1 && g == 0) || (ai > 0 && ea == nil) {
+						continue
+					}
+					for _, dl := range edgeDeltas {
+						for _, f := range []string{"", "notfound", "err"} {
+							if f != "" && dl != 0 && dl != -1 {
+								continue
+							}
+							g := g
+							in := ExpIn{Managed: true, ExpireAfter: ea, Created: sec(1000), Now: max(a+dl, sec(1000)), DeleteFault: f, TGP: &g}
+							switch pool {
+							case "same":
+								in.Pool, in.PoolExpireAfter, in.PoolTGP = "present", ea, &g
+							case "shorter":
+								in.Pool, in.PoolExpireAfter, in.PoolTGP = "present", &half, &g
+							}
+							out = append(out, in)
+						}
+					}
+				}
+			}
+		}
+	}
 	return out
 }
 
@@ -110,20 +282,79 @@ func implExp(raw json.RawMessage) (any, error) {
 	if err := json.Unmarshal(raw, &in); err != nil {
 		return nil, err
 	}
+	const poolName, nodeName = "pool-a", "node-0"
 	nc := &v1.NodeClaim{
-		ObjectMeta: metav1.ObjectMeta{Name: "nc-0", UID: "uid-nc-0", CreationTimestamp: mt(in.Created), Finalizers: []string{v1.TerminationFinalizer}, Labels: map[string]string{v1.NodePoolLabelKey: "pool-a"}},
+		ObjectMeta: metav1.ObjectMeta{Name: "nc-0", UID: "uid-nc-0", CreationTimestamp: mt(in.Created), Finalizers: []string{v1.TerminationFinalizer}, Labels: map[string]string{v1.NodePoolLabelKey: poolName}, Annotations: map[string]string{}},
 		Spec:       v1.NodeClaimSpec{NodeClassRef: nodeClassRef()},
-		Status:     v1.NodeClaimStatus{ProviderID: "fake://i-0", NodeName: "node-0"},
+		Status:     v1.NodeClaimStatus{ProviderID: "fake://i-0", NodeName: nodeName},
 	}
-	// lifecycle conditions with later transition times: expiry must be measured from creation, not from these
-	for k, t := range []string{v1.ConditionTypeLaunched, v1.ConditionTypeRegistered, v1.ConditionTypeInitialized} {
-		nc.Status.Conditions = append(nc.Status.Conditions, status.Condition{Type: t, Status: metav1.ConditionTrue, Reason: t, LastTransitionTime: mt(in.Created + sec(int64(37*(k+1))))})
+	if in.Conds == nil {
+		// lifecycle conditions with later transition times: expiry must be measured from creation, not from these
+		for k, t := range []string{v1.ConditionTypeLaunched, v1.ConditionTypeRegistered, v1.ConditionTypeInitialized} {
+			nc.Status.Conditions = append(nc.Status.Conditions, status.Condition{Type: t, Status: metav1.ConditionTrue, Reason: t, LastTransitionTime: mt(in.Created + sec(int64(37*(k+1))))})
+		}
+	}
+	for _, c := range in.Conds {
+		nc.Status.Conditions = append(nc.Status.Conditions, status.Condition{Type: c.Type, Status: condStatus(c.Status), Reason: c.Type, LastTransitionTime: mt(c.At)})
 	}
 	if !in.Managed {
 		nc.Spec.NodeClassRef = foreignNodeClassRef()
 	}
 	if in.ExpireAfter != nil {
 		nc.Spec.ExpireAfter = v1.NillableDuration{Duration: (*time.Duration)(in.ExpireAfter)}
+	}
+	if in.TGP != nil {
+		nc.Spec.TerminationGracePeriod = &metav1.Duration{Duration: time.Duration(*in.TGP)}
+	}
+	if in.TermAnnotSec != nil {
+		nc.Annotations[v1.NodeClaimTerminationTimestampAnnotationKey] = at(sec(*in.TermAnnotSec)).Format(time.RFC3339)
+	}
+	if in.DoNotDisrupt {
+		nc.Annotations[v1.DoNotDisruptAnnotationKey] = "true"
+	}
+	if in.LastPodEvent != nil {
+		nc.Status.LastPodEventTime = mt(*in.LastPodEvent)
+	}
+	objs := []client.Object{nc}
+	switch in.Pool {
+	case "present":
+		np := &v1.NodePool{ObjectMeta: metav1.ObjectMeta{Name: poolName, UID: "uid-pool-a", CreationTimestamp: mt(0)}}
+		np.Spec.Template.Spec.NodeClassRef = nodeClassRef()
+		if in.PoolExpireAfter != nil {
+			np.Spec.Template.Spec.ExpireAfter = v1.NillableDuration{Duration: (*time.Duration)(in.PoolExpireAfter)}
+		}
+		if in.PoolTGP != nil {
+			np.Spec.Template.Spec.TerminationGracePeriod = &metav1.Duration{Duration: time.Duration(*in.PoolTGP)}
+		}
+		nc.OwnerReferences = []metav1.OwnerReference{{APIVersion: "karpenter.sh/v1", Kind: "NodePool", Name: poolName, UID: np.UID}}
+		objs = append(objs, np)
+	case "nolabel":
+		delete(nc.Labels, v1.NodePoolLabelKey)
+	}
+	if in.Node != "" {
+		node := &corev1.Node{
+			ObjectMeta: metav1.ObjectMeta{Name: nodeName, UID: "uid-node-0", Labels: map[string]string{corev1.LabelHostname: nodeName, v1.NodeRegisteredLabelKey: "true"}, Finalizers: []string{v1.TerminationFinalizer}},
+			Spec:       corev1.NodeSpec{ProviderID: nc.Status.ProviderID},
+			Status:     corev1.NodeStatus{Conditions: []corev1.NodeCondition{{Type: corev1.NodeReady, Status: corev1.ConditionTrue, LastTransitionTime: mt(in.Created + sec(90))}}},
+		}
+		if in.NodeCreated != nil {
+			node.CreationTimestamp = mt(*in.NodeCreated)
+		}
+		if in.Pool != "nolabel" {
+			node.Labels[v1.NodePoolLabelKey] = poolName
+		}
+		objs = append(objs, node)
+		for i := 0; i < in.Pods; i++ {
+			pod := &corev1.Pod{
+				ObjectMeta: metav1.ObjectMeta{Name: fmt.Sprintf("pod-%d", i), Namespace: "default", UID: types.UID(fmt.Sprintf("uid-pod-%d", i)), CreationTimestamp: mt(in.Created + sec(120))},
+				Spec:       corev1.PodSpec{NodeName: nodeName, Containers: []corev1.Container{{Name: "c", Image: "i"}}},
+				Status:     corev1.PodStatus{Phase: corev1.PodRunning},
+			}
+			if i == 0 {
+				pod.Annotations = map[string]string{v1.DoNotDisruptAnnotationKey: "true"}
+			}
+			objs = append(objs, pod)
+		}
 	}
 	rec := &recorder{}
 	armed := false
@@ -137,10 +368,15 @@ func implExp(raw json.RawMessage) (any, error) {
 			}
 			return w.Delete(ctx, obj, opts...)
 		},
-	}, nc)
+	}, objs...)
 	ctx := baseCtx()
 	if in.Deleting { // already being deleted (finalizer keeps it)
 		if err := c.Delete(ctx, nc); err != nil {
+			return nil, fmt.Errorf("setup: %w", err)
+		}
+	}
+	if in.Node == "terminating" { // draining under the termination finalizer
+		if err := c.Delete(ctx, &corev1.Node{ObjectMeta: metav1.ObjectMeta{Name: nodeName}}); err != nil {
 			return nil, fmt.Errorf("setup: %w", err)
 		}
 	}
@@ -152,10 +388,48 @@ func implExp(raw json.RawMessage) (any, error) {
 	if !got.CreationTimestamp.Time.Equal(at(in.Created)) {
 		return nil, fmt.Errorf("setup: creation timestamp not preserved")
 	}
+	if (in.TGP == nil) != (got.Spec.TerminationGracePeriod == nil) || (in.TGP != nil && int64(got.Spec.TerminationGracePeriod.Duration) != *in.TGP) {
+		return nil, fmt.Errorf("setup: terminationGracePeriod not preserved")
+	}
+	if (in.ExpireAfter == nil) != (got.Spec.ExpireAfter.Duration == nil) || (in.ExpireAfter != nil && int64(*got.Spec.ExpireAfter.Duration) != *in.ExpireAfter) {
+		return nil, fmt.Errorf("setup: expireAfter not preserved")
+	}
 	clk := clocktesting.NewFakeClock(at(in.Now))
 	armed = true
 	res, err := expiration.NewController(clk, c, newProvider()).Reconcile(ctx, got)
 	return ReapOut{Deletes: len(rec.deletes), RequeueNs: int64(res.RequeueAfter), Err: err != nil}, nil
+}
+
+// expShrink: drop the frame items one at a time (the witness keeps only what the failure needs)
+func expShrink(raw json.RawMessage) []any {
+	var in ExpIn
+	json.Unmarshal(raw, &in)
+	var out []any
+	add := func(f func(x *ExpIn)) {
+		x := in
+		f(&x)
+		out = append(out, x)
+	}
+	add(func(x *ExpIn) {
+		*x = ExpIn{Managed: in.Managed, Deleting: in.Deleting, ExpireAfter: in.ExpireAfter, Created: in.Created, Now: in.Now, DeleteFault: in.DeleteFault}
+	})
+	add(func(x *ExpIn) { x.Conds = nil })
+	if len(in.Conds) > 0 {
+		for _, c := range core.ShrinkList(in.Conds) {
+			add(func(x *ExpIn) { x.Conds = c })
+		}
+	}
+	add(func(x *ExpIn) { x.Pool, x.PoolExpireAfter, x.PoolTGP = "", nil, nil })
+	add(func(x *ExpIn) { x.PoolExpireAfter = nil })
+	add(func(x *ExpIn) { x.PoolTGP = nil })
+	add(func(x *ExpIn) { x.Node, x.NodeCreated, x.Pods = "", nil, 0 })
+	add(func(x *ExpIn) { x.Pods = 0 })
+	add(func(x *ExpIn) { x.TermAnnotSec = nil })
+	add(func(x *ExpIn) { x.LastPodEvent = nil })
+	add(func(x *ExpIn) { x.DoNotDisrupt = false })
+	add(func(x *ExpIn) { x.TGP = nil })
+	add(func(x *ExpIn) { x.DeleteFault = "" })
+	return out
 }
 
 func expLabels(raw json.RawMessage, impl any) []string {
@@ -186,6 +460,65 @@ func expLabels(raw json.RawMessage, impl any) []string {
 	}
 	if in.DeleteFault != "" {
 		l = append(l, "deleteFault:"+in.DeleteFault)
+	}
+	// the frame
+	window := func(name string, x *int64) {
+		if x == nil || in.ExpireAfter == nil || *x <= 0 {
+			return
+		}
+		if e := in.Created + *in.ExpireAfter; e-*x <= in.Now && in.Now < e {
+			l = append(l, "clock:in-["+name+"-window-before-expiry)")
+		}
+	}
+	switch {
+	case in.TGP == nil:
+		l = append(l, "tgp:unset")
+	case *in.TGP == 0:
+		l = append(l, "tgp:0")
+	case in.ExpireAfter != nil && *in.TGP >= *in.ExpireAfter:
+		l = append(l, "tgp:>=expireAfter")
+	default:
+		l = append(l, "tgp:set")
+	}
+	window("tgp", in.TGP)
+	switch in.Pool {
+	case "present":
+		switch {
+		case in.PoolExpireAfter == nil:
+			l = append(l, "nodepool:expireAfter-never")
+		case in.ExpireAfter == nil:
+			l = append(l, "nodepool:expireAfter-set,claim-never")
+		case *in.PoolExpireAfter < *in.ExpireAfter:
+			l = append(l, "nodepool:expireAfter-shorter")
+		case *in.PoolExpireAfter > *in.ExpireAfter:
+			l = append(l, "nodepool:expireAfter-longer")
+		default:
+			l = append(l, "nodepool:expireAfter-equal")
+		}
+		if in.PoolTGP != nil {
+			l = append(l, "nodepool:tgp-set")
+		}
+		if in.PoolExpireAfter != nil && in.ExpireAfter != nil && in.Created+*in.PoolExpireAfter <= in.Now && in.Now < in.Created+*in.ExpireAfter {
+			l = append(l, "clock:in-[nodepool-expiry,claim-expiry)")
+		}
+		window("nodepool-tgp", in.PoolTGP)
+	case "nolabel":
+		l = append(l, "nodepool:standalone-claim")
+	}
+	if in.Conds != nil {
+		l = append(l, "conds:custom")
+	}
+	if in.TermAnnotSec != nil {
+		l = append(l, "annot:termination-timestamp")
+	}
+	if in.DoNotDisrupt {
+		l = append(l, "annot:do-not-disrupt")
+	}
+	if in.LastPodEvent != nil {
+		l = append(l, "lastPodEventTime")
+	}
+	if in.Node != "" {
+		l = append(l, "node:"+in.Node, fmt.Sprintf("pods:%d", in.Pods))
 	}
 	if m, ok := impl.(map[string]any); ok {
 		if fmt.Sprint(m["deletes"]) != "0" {
